@@ -107,9 +107,12 @@ class Func(interp.MethodTable):
     @interp.impl(func.Invoke)
     def invoke(self, _interp: RuntimeAnalysis, frame: RuntimeFrame, stmt: func.Invoke):
         args = (_interp.lattice.top(),) * len(stmt.inputs)
-        callee_frame, result = _interp.run_method(stmt.callee, args)
+        callee_frame, _ = _interp.run_method(stmt.callee, args)
         frame.is_quantum = frame.is_quantum or callee_frame.is_quantum
-        return (result,)
+        # the value of a call is an ordinary (top) lattice element: what the callee's
+        # region evaluation hands back is control-flow bookkeeping, not a value that
+        # the enclosing if/for can join
+        return (_interp.lattice.top(),)
 
     @interp.impl(func.Call)
     def call(self, _interp: RuntimeAnalysis, frame: RuntimeFrame, stmt: func.Call):
@@ -123,12 +126,12 @@ class Func(interp.MethodTable):
         ):
             body = trait.get_callable_region(callee_result.code)
             with _interp.new_frame(stmt) as callee_frame:
-                result = _interp.run_ssacfg_region(callee_frame, body, args)
+                _interp.run_ssacfg_region(callee_frame, body, args)
         else:
             raise InterruptedError("Dynamic method calls are not supported")
 
         frame.is_quantum = frame.is_quantum or callee_frame.is_quantum
-        return (result,)
+        return (_interp.lattice.top(),)
 
     @interp.impl(func.Return)
     def return_stmt(
